@@ -33,7 +33,7 @@ def snap(ds):
     import numpy as np
     out = {"meta": copy.deepcopy(dict(ds.meta)), "keys": list(ds.keys()), "groups": {}}
     for name, g in ds.items():
-        out["groups"][name] = {k: ([c._array.copy() for c in (v._xyz.values() if hasattr(v, "_xyz") else [v])], str(v.unit), v.name, id(v)) for k, v in g.items()}
+        out["groups"][name] = {k: ([c._array.copy() for c in common.comps_of(v).values()], str(v.unit), v.name, id(v)) for k, v in g.items()}
     return out
 
 
@@ -103,7 +103,7 @@ def run_c16(rep, tier, seed):
                         break
                     for key in src.keys():
                         sv, gv = src[key], got[key]
-                        sc_, gc = (list(sv._xyz.values()), list(gv._xyz.values())) if hasattr(sv, "_xyz") else ([sv], [gv])
+                        sc_, gc = (list(common.comps_of(sv).values()), list(common.comps_of(gv).values()))
                         if len(sc_) != len(gc) or sparse_of_pint(sv.unit) != sparse_of_pint(gv.unit) or gv.name != key:
                             d = f"group {e['name']} variable {key}: kind/unit/name changed ({gv.unit}, {gv.name!r})"
                             break
